@@ -4,3 +4,4 @@ pub mod hist;
 pub mod model;
 pub mod runner;
 pub mod tape;
+pub mod tiered;
